@@ -138,6 +138,38 @@ MultiSet ==
 SelectionTwice(id, prefs1, adv1, prefs2, adv2) ==
   LET a == Selection(id, prefs1, adv1)  b == Selection(id, prefs2, adv2) IN
   [a EXCEPT !.steps = a.steps \o b.steps, !.info = [a.info EXCEPT !.family = "selection-twice"]]
+\* a discovery that fails part-way (a later chunk request is refused once), then the establishment is tried again on the
+\* same connection: the second attempt must see exactly what the BMC advertises, nothing of the abandoned first one
+FailOnce(i) == [rule |-> "fail-once", when |-> << IsCipherReq, Eq(Slice(Req, 24, 25), B(<<128 + i>>)) >>, ifstate |-> [name |-> "n", eq |-> 0],
+                effects |-> << [k |-> "inc", name |-> "n"] >>,
+                datagrams |-> << Dg(NullWrapper(0, MsgRsp(7, 84, 193, <<>>)), [kind |-> "chunk-refused"]) >>]
+AfterFailed(id, prefs, adv, failAt) ==
+  LET b == Selection(id, prefs, adv)
+      rulesStep == [k |-> "rules", rules |-> << FailOnce(failAt) >> \o b.steps[1].rules, state |-> [n |-> 0]]
+      first == [b.steps[2] EXCEPT !.label = "open-fails",
+                                  !.exp = [prop |-> "C12", outcome |-> "errclass", errclass |-> "other", reqs |-> [i \in 1..(failAt + 1) |-> CipherReq(i - 1)]]]
+  IN [b EXCEPT !.steps = << rulesStep, first, b.steps[2] >>, !.info = [b.info EXCEPT !.family = "selection-after-failed-discovery"]]
+AfterFailedRecs(id, prefs, recs, failAt) ==
+  LET b == SelectionRecs(id, prefs, recs)
+      rulesStep == [k |-> "rules", rules |-> << FailOnce(failAt) >> \o b.steps[1].rules, state |-> [n |-> 0]]
+      first == [b.steps[2] EXCEPT !.label = "open-fails",
+                                  !.exp = [prop |-> "C12", outcome |-> "errclass", errclass |-> "other", reqs |-> [i \in 1..(failAt + 1) |-> CipherReq(i - 1)]]]
+  IN [b EXCEPT !.steps = << rulesStep, first, b.steps[2] >>, !.info = [b.info EXCEPT !.family = "selection-after-failed-discovery"]]
+\* pseudo-random record lists (0..3 algorithms per class, standard and OEM): the 16-byte boundary falls at every position of
+\* a record; preferences: two advertised combinations, and an unadvertised one first
+AfterFailedSet ==
+  LET U == {SelU[i] : i \in 1..Len(SelU)} IN
+  { LET recs == ListOf(k * 3 + Seed, 4 + (k % 5))
+        ents == CS!ExpandAll(recs)
+        trip(e) == <<e.AuthenticationAlgorithm, e.IntegrityAlgorithm, e.ConfidentialityAlgorithm>>
+        p == CASE v = 1 -> << trip(ents[Len(ents)]), trip(ents[1]) >>
+               [] v = 2 -> << <<1, 0, 0>>, trip(ents[(k % Len(ents)) + 1]) >>
+               [] OTHER -> << <<2, 3, 3>>, trip(ents[1]), <<1, 0, 0>> >>
+    IN AfterFailedRecs("safr-" \o ToString(k) \o "-" \o ToString(v), p, recs, IF Len(CS!DataOf(recs)) >= 32 /\ k % 2 = 0 THEN 2 ELSE 1)
+    : k \in {kk \in 1..(IF Tier = "thorough" THEN 120 ELSE 40) : Len(CS!DataOf(ListOf(kk * 3 + Seed, 4 + (kk % 5)))) > 16}, v \in 1..3 }
+  \cup
+  { AfterFailed("saf-" \o ToString(p) \o "-" \o ToString(Cardinality(a)), p, a, 1)
+      : p \in {<<>>, <<SelU[4], SelU[1]>>, <<SelU[3], SelU[2]>>, <<SelU[5], SelU[3], SelU[1]>>}, a \in {U, U \ {SelU[1]}, U \ {SelU[2]}} }
 SelectionSet ==
   LET U == {SelU[i] : i \in 1..Len(SelU)}
       prefs == IF Tier = "thorough" THEN PrefLists ELSE {p \in PrefLists : Len(p) <= 2} \cup {p \in PrefLists : Len(p) = 3 /\ (p[1][1] + p[2][2] + p[3][1] + Seed) % 5 = 0}
@@ -145,7 +177,7 @@ SelectionSet ==
       \* with the default list, with the same explicit list, over few and many advertised records
       pairs == { SelectionTwice("st-" \o ToString(p) \o "-" \o ToString(a1) \o "-" \o ToString(a2), p, a1, p, a2)
                    : p \in {<<>>, <<SelU[1], SelU[2]>>, <<SelU[3], SelU[1], SelU[2]>>}, a1 \in {{SelU[2]}, {SelU[2], SelU[4]}, U}, a2 \in {U, {SelU[1], SelU[2]}} }
-  IN { Selection("s-" \o ToString(p) \o "-" \o ToString(a), p, a) : p \in prefs, a \in SUBSET U } \cup pairs \cup MultiSet
+  IN { Selection("s-" \o ToString(p) \o "-" \o ToString(a), p, a) : p \in prefs, a \in SUBSET U } \cup pairs \cup MultiSet \cup AfterFailedSet
 
 \* C17: the same scenarios judged as histories on one connection (a second discovery / establishment must not see the first)
 Reprop(sc, p) == [sc EXCEPT !.steps = [i \in 1..Len(sc.steps) |-> IF "exp" \in DOMAIN sc.steps[i]
